@@ -494,7 +494,7 @@ func init() {
 	core.Register(&core.Prop{
 		ID:    "C10",
 		Level: "exploration",
-		Rule: "per case 48 values: grammar-generated around every keyword, all record type names of miekg/dns and all RCODE names in mixed case, 0..4 delimiters, field counts +-1 around each handler's arity, numeric bounds (-1, 0, 65535, 65536, +1, empty), labels of 1/63/64 characters, IPv4/IPv6/mapped/zoned/bracketed addresses, each also with 1..3 byte mutations; " +
+		Rule: "per case 48 values: grammar-generated around every keyword, all record type names of miekg/dns and all RCODE names in mixed case, 0..4 delimiters, field counts +-1 around each handler's arity, numeric bounds (-1, 0, 65535, 65536, +1, empty), labels of 1/63/64 characters, IPv4/IPv6/mapped/zoned/bracketed addresses, each also with 1..3 byte mutations, and pairs of values joined by ',dnsrewrite=' (the modifier written twice); " +
 			"every accepted value must satisfy the shape predicate of the RRValue contract, survive a consumer that type-asserts by record type, parse deterministically, and agree with the generator's expectation where the grammar determines it (valid => expected content, malformed => error); non-trivial = accepted value; distinct by value",
 		Assumptions: []string{
 			"expectations are only asserted for values whose validity the documented grammar decides; mutated values are judged by the shape predicate alone",
@@ -506,6 +506,14 @@ func init() {
 				c10Check(c, cs)
 				m := c10Case{Value: c10Mutate(c, cs.Value), Note: "mutation of " + cs.Note}
 				c10Check(c, m)
+				if k%6 == 0 {
+					// The modifier written twice in one rule (the value then
+					// contains ",dnsrewrite="): whichever occurrence counts, the
+					// result is one well-shaped rewrite, never a blend of both.
+					o := c10Gen(c)
+					c10Check(c, c10Case{Value: cs.Value + ",dnsrewrite=" + o.Value, Note: "modifier twice: " + cs.Note + " + " + o.Note})
+					c.Event("values_with_the_modifier_twice", 1)
+				}
 			}
 		},
 	})
